@@ -44,6 +44,7 @@ fn floors(t: Tier) -> Vec<(String, u64)> {
         ("sequence.messages".into(), 3000),
         ("concat.ok".into(), 5000),
         ("concat.with_bad_record".into(), 1000),
+        ("concat.with_surplus_payload".into(), 1000),
     ]
 }
 
@@ -198,8 +199,12 @@ fn judge_sequence(ctx: &mut Ctx) {
 
 /// Well-delimited records: good ones and individually undecodable ones (usable length field).
 fn record(ctx: &mut Ctx) -> (Vec<u8>, bool) {
+    let sel = ctx.rng.below(10);
+    if sel == 5 {
+        ctx.rep.bucket("concat.with_surplus_payload");
+    }
     let r = &mut ctx.rng;
-    match r.below(10) {
+    match sel {
         0 => (wire::raw_record(r.range(0, 39) as u16, false, r.range(1, 9) as u16, &r.bytes_range(0, 12), true), true), // vendor
         1 => (wire::raw_record(*r.pick(&[20u16, 40, 41, 500, 65535]), false, 0, &r.bytes_range(0, 12), true), true), // unknown
         2 => {
@@ -213,6 +218,21 @@ fn record(ctx: &mut Ctx) -> (Vec<u8>, bool) {
         4 => {
             let a = val::hidden_avp(r, 40);
             (senc::avp(&a).unwrap(), false)
+        }
+        5 => {
+            // non-canonical but decodable: a kind with a fixed-size (or empty) value carrying
+            // surplus payload octets, which its decoder must skip; the surplus is itself shaped
+            // like AVP records so that a decoder which fails to skip it would parse it
+            let attr = *r.pick(&[39u16, 39, 0, 2, 3, 5, 6, 9, 13, 25, 32, 34, 35, 36, 38]);
+            let min = crate::spec::tables::min_len(crate::spec::tables::format_of(attr).unwrap());
+            let mut p = wire::valid_payload(r, attr, min);
+            if r.bool() {
+                p.extend_from_slice(&senc::avp(&val::any_avp(r, 12)).unwrap());
+            } else {
+                let extra = r.bytes_range(1, 12);
+                p.extend_from_slice(&extra);
+            }
+            (wire::raw_record(attr, false, 0, &p, r.bool()), false)
         }
         _ => {
             let a = val::any_avp(r, 40);
